@@ -26,6 +26,7 @@ def gen(ctx, float_data=False):
         c['fit_ep'] = rng.random() < 0.6
         c['call'] = rng.choice([None, None, True, False])
         c['relift'] = rng.random() < 0.6
+        c['data_form'] = None if float_data else st.pick_form(rng, integral=True, small=True)
         c['lifted'] = rng.random() < 0.3
         c['inp'] = rng.random() < 0.4
         c['form'] = rng.choice([1, 2])
@@ -61,11 +62,13 @@ def call_args(kp, c):
     e = fe if c['call'] is None else c['call']
     A = np.array(c['rows_lab'], dtype=float)
     X = A if e else A[:, 1:]
+    # the (integer-valued) call data in another valid form: integer / single precision dtype, memory layout
+    dform = c.get('data_form')
     if c['form'] == 1:
-        return X, None, e
+        return st.in_form(X, dform), None, e
     x0 = pykoop.extract_initial_conditions(X, min_samples=kp.min_samples_, n_inputs=c['nu'], episode_feature=e)
     u = pykoop.extract_input(X, n_inputs=c['nu'], episode_feature=e)
-    return x0, u, e
+    return st.in_form(x0, dform), st.in_form(u, dform), e
 
 
 def run_impl(kp, c):
@@ -92,6 +95,13 @@ def model_line(kp, c, K):
 
 def _oracle(c, rng):
     """the property statement on the implementation, float data, contractive Koopman matrix"""
+    if rng.random() < 0.3:
+        # integer-valued initial conditions and inputs handed over as integer (or single precision) arrays; the Koopman
+        # matrix is not integral, so the predictions are not integers
+        c = dict(c)
+        c['rows_lab'] = [[r[0]] + [float(round(3 * v)) for v in r[1:]] for r in c['rows_lab']]
+        c['rows'] = c['rows_lab']
+        c['data_form'] = rng.choice(['int64', 'int32', 'float32'])
     try:
         kp, K = build(c, rng=rng, contractive=True)
     except Exception:
